@@ -509,6 +509,17 @@ struct Runner {
       return add >= lo;
     };
     auto gen_vals = [&](size_t n) { for (size_t i = 0; i < n; ++i) io.vals.push_back(fresh(op.a, (unsigned)i)); };
+    // a count close to the maximum of a wide size_type (32/64 bit): size() + count exceeds the size_type -- and, for a size_type as wide
+    // as uintmax_t, wraps around in the library's own needed-size computation.  Must be refused with std::overflow_error (C08).
+    auto huge_count = [&](size_t &add) -> bool {
+      if (reachable || t.flavour == FL_FIXED || !t.limitThrows || !sz) return false;
+      if (((op.b >> 20) % 100) < 98 - (overshootPct + 3) / 4) return false;  // (selector values that simplified plans never use)
+      size_t j = (op.n >> 26) % 4;
+      if (j >= sz) j = sz - 1;
+      add = (size_t)t.limit - j;
+      if (stats) stats->probe(t.limit > 0xffffffffull ? "huge_count_wraps_uintmax" : "huge_count_exceeds_size_type");
+      return true;
+    };
 
     switch (op.kind) {
       case V_PUSH_COPY: case V_PUSH_MOVE: case V_EMPLACE_BACK: {
@@ -527,6 +538,7 @@ struct Runner {
       }
       case V_INSERT_N: {
         size_t add = pick_count(0);
+        if (huge_count(add)) { expectThrow = 2; io.count = add; io.pos = pick_pos(sz); gen_vals(1); return true; }
         if (!fit(add, 0)) return false;
         if (add > argMax) add = argMax;  // argument is a size_type
         expectThrow = sz + add > t.limit ? limit_exc() : 0;
@@ -636,6 +648,7 @@ struct Runner {
       }
       case V_APPEND_N: case V_APPEND_NV: {
         size_t add = pick_count(0);
+        if (huge_count(add)) { expectThrow = 2; io.count = add; if (op.kind == V_APPEND_NV) gen_vals(1); return true; }
         if (!fit(add, 0)) return false;
         if (add > argMax) add = argMax;
         expectThrow = sz + add > t.limit ? limit_exc() : 0;
@@ -685,6 +698,7 @@ struct Runner {
       case V_ALIAS_INSERT_N: case V_ALIAS_APPEND: {
         if (!sz) return false;
         size_t add = op.n % 4;
+        if (huge_count(add)) { expectThrow = 2; io.count = add; io.srcIdx = op.a % sz; io.pos = op.kind == V_ALIAS_INSERT_N ? pick_pos(sz) : sz; return true; }
         if (!fit(add, 0)) return false;
         if (add > argMax) add = argMax;
         expectThrow = sz + add > t.limit ? limit_exc() : 0;
